@@ -5379,7 +5379,9 @@ class PyCdlib:
                        UEFI.  0 is the default.
          boot_info_table - Whether to add a boot info table to the ISO.  The
                            default is False.
-         efi - Whether this is an EFI entry for El Torito.  The default is False.
+         efi - Whether this is an EFI entry for El Torito; an entry that is
+               added to an existing Boot Catalog with this set gets platform ID
+               0xef whatever platform_id says.  The default is False.
          media_name - The name of the media type, one of 'noemul', 'floppy', or 'hdemul'.
          bootable - Whether the boot media is bootable.  The default is True.
          boot_load_seg - The load segment address of the boot image.
@@ -5450,7 +5452,7 @@ class PyCdlib:
             self.eltorito_boot_catalog.add_section(boot_dirrecord.inode,
                                                    sector_count, boot_load_seg,
                                                    media_name, system_type, efi,
-                                                   bootable)
+                                                   bootable, platform_id)
         else:
             # Step 2.
             br = headervd.BootRecord()
